@@ -1138,6 +1138,10 @@ class FnAnalysis:
                 return
 
     def d_call(self, s, ln, name, args, b):
+        if ln in ('split_at', 'split_at_mut') and len(args) == 2:
+            # x.split_at(k) panics iff k > len(x): the same obligation as x[..k]
+            rng = E('aggr', 'RangeTo::RangeTo', [args[1]], c={'akind': 'adt', 'adt': 'core::ops::range::RangeTo', 'variant': 'RangeTo'})
+            return self.d_call(s, 'index', name, [args[0], rng], b)
         if ln in ('index', 'index_mut'):
             if len(args) != 2:
                 return
